@@ -135,9 +135,17 @@ pub fn stages(prop: &str, tier: &str) -> Vec<Stage> {
             {
                 let hist: Vec<Book> = (1017u16..=1030).map(Book::Hist).collect();
                 let dead: Vec<Book> = (60u16..=67).map(Book::Dead).collect();
+                // match 20 walks over all ~1024 duplicate tickets (2 000 steps in one call): bound 1 with it, bound 2 without
                 let mut st = stage(
-                    "pairs of 1-op threads on levels with 1017..1030 amendments behind them",
+                    "pairs of 1-op threads on levels with 1017..1030 amendments behind them, bound 1",
                     programs_1op(2, &hist, &[COp::Amend(1, 8), COp::Amend(2, 1), COp::Cancel(2), COp::Cancel(3), COp::Match(2), COp::Match(20), COp::Cancel(1), COp::Add]),
+                    Some(1),
+                );
+                st.exec.max_steps = 40_000;
+                v.push(st);
+                let mut st = stage(
+                    "pairs of 1-op threads on levels with 1017..1030 amendments behind them, short calls, bound 2",
+                    programs_1op(2, &hist, &[COp::Amend(1, 8), COp::Amend(2, 1), COp::Cancel(2), COp::Cancel(3), COp::Match(2), COp::Cancel(1), COp::Add]),
                     Some(2),
                 );
                 st.exec.max_steps = 40_000;
@@ -159,7 +167,7 @@ pub fn stages(prop: &str, tier: &str) -> Vec<Stage> {
                 st.exec.clock_step_ms = Some(ms);
                 v.push(st);
             }
-            v.push(stage("a reader that rebuilds a level from its snapshot and empties it, against one and two writers, ten books", restore_programs(&books6, &wide, true), Some(4)));
+            v.push(stage("a reader that rebuilds a level from its snapshot and empties it, against one and two writers, ten books", restore_programs(&books6, &wide, true), Some(3)));
             v.push(stage("victim programs: one fine-grained operation against 4 call-atomic operations of another thread, seven books", programs_victim(&[Book::B1, Book::B2, Book::B3, Book::B4, Book::B7, Book::B8, Book::B12], &wide, &[COp::Add, COp::Match(2), COp::Match(20), COp::Cancel(1), COp::Amend(1, 2)], 4), None));
             v.push(stage("pairs and triples of 1-op threads on a 70-order book", { let mut p = programs_1op(2, &[Book::B9, Book::B10], &big); p.extend(programs_1op(3, &[Book::B9], &big)); p }, Some(2)));
             // a wider alphabet for the unbounded two-thread programs: iceberg adds, amend to zero display
